@@ -212,9 +212,26 @@ func runC06(ctx *h.Ctx) int {
 				return
 			}
 			k.Count("accepted", 1)
-			if !hoistCheck(k, rp, res.Out, fmt.Sprintf("optimize=%v", opt)) {
+			tag := fmt.Sprintf("optimize=%v", opt)
+			if kk, probe := k.Dry(); !hoistCheck(kk, rp, res.Out, tag) && len(probe.Keys) > 0 {
+				key, msg := probe.Keys[0], probe.Msgs[0]
+				det := map[string]interface{}{"output": res.Out}
+				msrc, mmsg := shrinkFor(k, prog, key, func(k2 *h.Case, src string) {
+					r := h.Compile(src, optsOf(prog, opt))
+					rp2, err := spec.Resolve(prog, prog.Switches)
+					if r.OK() && err == nil {
+						hoistCheck(k2, rp2, r.Out, tag)
+					}
+				})
+				if msrc != "" {
+					msg += "\nreduced witness:\n" + msrc + "--- " + mmsg
+					det["minimal_source"] = msrc
+					det["minimal_output"] = h.Compile(msrc, optsOf(prog, opt)).Out
+				}
+				k.Violation(key, msg, det)
 				return
 			}
+			hoistCheck(k, rp, res.Out, tag)
 		}
 		lm := buildLabelModel(rp)
 		if len(lm.Texts)+len(lm.Moves) > 0 {
